@@ -39,6 +39,7 @@ prop(
         dict(test="TestC11Numbers", shards=1, replayable=False),
         dict(test="TestC11", shards_quick=4, shards_thorough=16, checks_quick=50000, checks_thorough=500000),
         dict(test="TestC11History", shards_quick=6, shards_thorough=16, checks_quick=250, checks_thorough=4000),
+        dict(test="FuzzC11", fuzz=True, tiers=["thorough"], fuzztime="120s", shards=1, replay_test="TestC11", timeout_thorough=900),
     ],
     level_text="Bounded-exhaustive plus sampled generated-input search against an independent grammar: every string up to "
                "length 3 (quick) / 4 (thorough) over the property's alphabet and all 128 numbers are decided; longer strings are sampled.",
@@ -273,7 +274,8 @@ prop(
     "existing default mapping). Non-trivial = an axis with an optional field, or any invalidation; distinct by case hash.",
     [dict(test="TestC10", shards=16, checks_quick=12000, checks_thorough=120000),
      dict(test="TestC10Files", shards=16, checks_quick=600, checks_thorough=8000),
-     dict(test="TestC10Hostile", shards=16, checks_quick=6000, checks_thorough=60000)],
+     dict(test="TestC10Hostile", shards=16, checks_quick=6000, checks_thorough=60000),
+     dict(test="FuzzC10", fuzz=True, tiers=["thorough"], fuzztime="180s", shards=1, replay_test="TestC10Hostile", timeout_thorough=1200)],
     level_text="Generated-input search with an independently built expected configuration (round trip description -> text -> parser -> view) "
                "and single-field invalidations that must be rejected.",
     level_note="Trusted: the TOML emitter in desc.go (spellings limited to what TOML 1.0 defines), the view functions in c10_test.go. Not asserted: "
@@ -340,6 +342,7 @@ prop(
     [
         dict(test="TestC20", shards=16, checks_quick=8000, checks_thorough=150000),
         dict(test="TestC20AllOrders", shards=16, checks_quick=400, checks_thorough=6000),
+        dict(test="FuzzC20", fuzz=True, tiers=["thorough"], fuzztime="120s", shards=1, replay_test="TestC20", timeout_thorough=900),
     ],
     level_text="Generated multisets of handlers with permutation metamorphic relation (all orders for n <= 6) and partition/type invariants.",
     level_note="Trusted: the two handler classes the property names are decided by a set-based transcription of the capability tables (c20Class); "
